@@ -312,8 +312,10 @@ class Compiler:
         :return: The RzIL representation of it.
         """
         ast = self.parser.parse(code)
-        result = self.transformer.transform(ast)
-        self.transformer.reset()
+        try:
+            result = self.transformer.transform(ast)
+        finally:
+            self.transformer.reset()
         return result
 
     def compile_insn(self, insn_name: str) -> RZILInstruction:
